@@ -877,7 +877,21 @@ func (e *Exec) Observe(ix *index.Index, c *index.Corpus) string {
 		cr = append(cr, e.refTok(bm.Ref.String()))
 		return true
 	}, true)
-	return "M=" + joinOrDash(metas) + ";D=" + joinOrDash(dels) + ";P=" + joinOrDashSep(pns, "/") + ";L=" + joinOrDash(lm) + ";C=" + joinOrDash(cr)
+	// back references (claims whose value is the blob's ref), for every blob of the world, arrived or not;
+	// Corpus.claimBack is documented as not sorted: compared as a set
+	var backs []string
+	for _, id := range ids {
+		var cls []string
+		c.ForeachClaimBack(e.W.Blob[id].BlobRef(), time.Time{}, func(cl *camtypes.Claim) bool {
+			cls = append(cls, e.refTok(cl.BlobRef.String()))
+			return true
+		})
+		if len(cls) > 0 {
+			sort.Strings(cls)
+			backs = append(backs, fmt.Sprintf("b%d:%s", id, strings.Join(cls, "+")))
+		}
+	}
+	return "M=" + joinOrDash(metas) + ";D=" + joinOrDash(dels) + ";P=" + joinOrDashSep(pns, "/") + ";L=" + joinOrDash(lm) + ";C=" + joinOrDash(cr) + ";B=" + joinOrDash(backs)
 }
 
 func joinOrDashSep(xs []string, sep string) string {
